@@ -89,6 +89,27 @@ def _has_return_in_loop(body: list[ast.stmt]) -> bool:
     return walk(body, False)
 
 
+def _always_leaves(stmts: list[ast.stmt]) -> bool:
+    """control never falls off the end of this block (every path ends in return / raise)"""
+    if not stmts:
+        return False
+    s = stmts[-1]
+    if isinstance(s, (ast.Return, ast.Raise)):
+        return True
+    if isinstance(s, ast.If):
+        return bool(s.orelse) and _always_leaves(s.body) and _always_leaves(s.orelse)
+    if isinstance(s, ast.Try):
+        if s.finalbody and _always_leaves(s.finalbody):
+            return True
+        main = _always_leaves(s.orelse) if s.orelse else _always_leaves(s.body)
+        return main and all(_always_leaves(h.body) for h in s.handlers)
+    if isinstance(s, (ast.With, ast.AsyncWith)):
+        return _always_leaves(s.body)
+    if isinstance(s, ast.While) and isinstance(s.test, ast.Constant) and s.test.value and not any(isinstance(x, ast.Break) for x in ast.walk(s)):
+        return True
+    return False
+
+
 def _simple_expr(e: ast.AST) -> bool:
     """cheap, effect-free, re-evaluable key expression: names, attribute chains, constants, type(x)/len(x) of those"""
     if _simple(e):
@@ -326,8 +347,9 @@ class Flattener:
                     if isinstance(s, ast.Assign):
                         return [ast.copy_location(ast.Assign(targets=copy.deepcopy(s.targets), value=call), at)]
                     return [ast.copy_location(ast.Expr(value=call), at)]
+                falls = bool(body) and not _always_leaves(body)  # (before the returns are rewritten in place)
                 body2, needs = self.replace_returns(body, make)
-                if body and not isinstance(body[-1], (ast.Return, ast.Raise)):
+                if falls:
                     body2 = body2 + make(None, s)
                 if needs:
                     new = prologue + [ast.copy_location(ast.While(test=ast.Constant(value=True), body=body2 + [ast.copy_location(ast.Break(), s)], orelse=[]), s)]
@@ -515,12 +537,12 @@ class Flattener:
         if mode == "return":
             # returns of the helper are returns of the caller; a fall-through returns None
             new = prologue + body
-            if not body or not isinstance(body[-1], (ast.Return, ast.Raise)):
+            if not body or not _always_leaves(body):
                 new = new + [ast.copy_location(ast.Return(value=None), s)]
         else:
+            falls_through = not body or not _always_leaves(body)  # (before the returns are rewritten in place)
             body2, needs = self.replace_returns(body, make)
-            falls_through = not body or not isinstance(body[-1], (ast.Return, ast.Raise))
-            if mode in ("assign", "if", "ifnot") and falls_through and not (body and isinstance(body[-1], ast.Return)):
+            if mode in ("assign", "if", "ifnot") and falls_through:
                 # implicit `return None`
                 body2 = body2 + make(None, s)
             if needs:
